@@ -1,2 +1,4 @@
 from props.client_props import gen_c12
-PROP = {"id": "C12", "stages": [{"name": "client", "target": "h_client", "gen": gen_c12, "shard": 12}], "trivial_tags": [], "rule": "", "assumptions": []}
+PROP = {"id": "C12", "stages": [{"name": "client", "target": "h_client", "gen": gen_c12, "shard": 12}], "trivial_tags": [],
+        "rule": 'downloads and uploads with a recording callback x cancellation reported at poll 0..4 / never x four methods x both types x payload sizes; callback events interleaved with block sizes from libc interposition; ABOR, data-socket closure, result.',
+        "assumptions": ["in-memory control transport (a socket_base subclass) stands in for the TCP control socket; data connections are real loopback TCP", "oracle values (read sizes, kernel-chosen ports, connect results) are taken from the implementation run"]}
